@@ -300,6 +300,225 @@ theorem C05_translator_needs_recheck :
     ∃ (i j : TrIn), i.key = j.key ∧ trCompute (fun _ => [0]) id j ≠ trCompute (fun _ => [0]) id i :=
   ⟨⟨[7], fun _ => some 1, true⟩, ⟨[7], fun _ => some 2, true⟩, rfl, by simp [trCompute]⟩
 
+/-! ### the `aggr_func` component of `sql_key`: three-valued `distinct` -/
+
+/-- as coded (`(aggr_func_name, aggr_func_distinct, sep)`, each input unchanged — checked by the generator) the component is
+    injective: transparent for every SQL builder and every history -/
+theorem C05_aggr_key {V : Type} (F : AggrIn → V) (hist : List (Op AggrIn (Nat × Option Bool × Option Nat))) :
+    run (plain aggrKey F) [] hist = hist.map (cold (plain aggrKey F)) := by
+  apply C05_memo_history
+  intro i j _ _ hk _ _
+  obtain ⟨n, d, s⟩ := i
+  obtain ⟨n', d', s'⟩ := j
+  simp only [plain, aggrKey, Prod.mk.injEq] at hk
+  obtain ⟨h1, h2, h3⟩ := hk
+  simp [plain, h1, h2, h3]
+
+/-- a component that keeps only the truthiness of `aggr_func_distinct` collapses `None` (COUNT DISTINCT) and `False` (COUNT ALL):
+    `q.count()` then `q.count(distinct=False)` answers the second with the first's statement -/
+theorem C05_aggr_key_bool_collapses :
+    ∃ i j : AggrIn, aggrKeyBool i = aggrKeyBool j ∧ countDistinct i ≠ countDistinct j ∧
+      run (plain aggrKeyBool countDistinct) [] [.call i, .call j] ≠ [Op.call i, Op.call j].map (cold (plain aggrKeyBool countDistinct)) :=
+  ⟨⟨0, none, none⟩, ⟨0, some false, none⟩, by decide, by decide, by decide⟩
+
+/-! ### caches keyed by `id(code object)` -/
+
+/-- every cached entry belongs to a pinned, live object with that content; pinned objects are live -/
+def HInv (h : Heap) : Prop :=
+  (∀ a v, tget a h.table = some v → a ∈ h.pinned ∧ ∃ o, liveAt h a = some o ∧ o.content = v) ∧
+  (∀ a ∈ h.pinned, ∃ o, liveAt h a = some o)
+
+private theorem liveAt_cons_ne (h : Heap) (o : CodeObj) (a : Nat) (hne : o.addr ≠ a) :
+    liveAt { h with live := o :: h.live } a = liveAt h a := by
+  simp [liveAt, hne]
+
+private theorem liveAt_filter_ne (h : Heap) (a b : Nat) (hne : a ≠ b) :
+    liveAt { h with live := h.live.filter (fun o => o.addr != b) } a = liveAt h a := by
+  simp only [liveAt]
+  induction h.live with
+  | nil => rfl
+  | cons x xs ih =>
+    simp only [List.filter_cons]
+    by_cases hx : x.addr = b
+    · have h1 : (x.addr != b) = false := by simp [hx]
+      have h2 : (x.addr == a) = false := by simp [hx, Ne.symm hne]
+      simp only [h1, Bool.false_eq_true, if_false, List.find?_cons, h2, ih]
+    · have h1 : (x.addr != b) = true := by simp [hx]
+      simp only [h1, if_true, List.find?_cons]
+      cases hxa : (x.addr == a) <;> simp [ih]
+
+private theorem tget_tdel_ne {V : Type} (a b : Nat) (t : Table Nat V) (hb : b ≠ a) : tget a (tdel b t) = tget a t := by
+  induction t with
+  | nil => rfl
+  | cons x xs ih =>
+    obtain ⟨k, w⟩ := x
+    by_cases hk : k = b
+    · have hka : ¬ k = a := fun e => hb (hk ▸ e)
+      simp only [tdel, hk, if_true, ih]
+      simp only [tget, hk ▸ hka, if_false]
+    · simp only [tdel, hk, if_false, tget, ih]
+
+private theorem tget_tset {V : Type} (a b : Nat) (v : V) (t : Table Nat V) :
+    tget a (tset b v t) = if b = a then some v else tget a t := by
+  by_cases hb : b = a
+  · subst hb; simp [tset, tget]
+  · simp only [tset, tget, hb, if_false]
+    exact tget_tdel_ne a b t hb
+
+private theorem hstep_pinned (warm : Bool) (h : Heap) (hi : HInv h) (op : HOp) :
+    HInv (hstep true warm h op).1 ∧ (hstep true warm h op).2 = (hstep true false h op).2 := by
+  cases op with
+  | alloc o =>
+    simp only [hstep]
+    cases hl : liveAt h o.addr with
+    | some _ => exact ⟨hi, by first | rfl | trivial⟩
+    | none =>
+      refine ⟨⟨?_, ?_⟩, by first | rfl | trivial⟩
+      · intro a v ht
+        obtain ⟨hp, o', ho', hc⟩ := hi.1 a v ht
+        have hne : o.addr ≠ a := fun e => by rw [e] at hl; rw [hl] at ho'; cases ho'
+        exact ⟨hp, o', by rw [liveAt_cons_ne h o a hne]; exact ho', hc⟩
+      · intro a ha
+        obtain ⟨o', ho'⟩ := hi.2 a ha
+        have hne : o.addr ≠ a := fun e => by rw [e] at hl; rw [hl] at ho'; cases ho'
+        exact ⟨o', by rw [liveAt_cons_ne h o a hne]; exact ho'⟩
+  | drop b =>
+    simp only [hstep]
+    by_cases hb : b ∈ h.pinned
+    · simp only [hb, if_true]; exact ⟨hi, by first | rfl | trivial⟩
+    · simp only [hb, if_false]
+      refine ⟨⟨?_, ?_⟩, by first | rfl | trivial⟩
+      · intro a v ht
+        obtain ⟨hp, o', ho', hc⟩ := hi.1 a v ht
+        have hne : a ≠ b := fun e => hb (e ▸ hp)
+        exact ⟨hp, o', by rw [liveAt_filter_ne h a b hne]; exact ho', hc⟩
+      · intro a ha
+        obtain ⟨o', ho'⟩ := hi.2 a ha
+        have hne : a ≠ b := fun e => hb (e ▸ ha)
+        exact ⟨o', by rw [liveAt_filter_ne h a b hne]; exact ho'⟩
+  | use b =>
+    simp only [hstep, if_true, Bool.false_eq_true, if_false]
+    cases hl : liveAt h b with
+    | none => exact ⟨hi, by first | rfl | trivial⟩
+    | some o =>
+      simp only
+      have hlive : ∀ a, liveAt { h with pinned := b :: h.pinned } a = liveAt h a := fun _ => rfl
+      cases warm with
+      | false =>
+        simp only [Bool.false_eq_true, if_false]
+        refine ⟨⟨?_, ?_⟩, by first | rfl | trivial⟩
+        · intro a v ht
+          simp only [tget_tset] at ht
+          by_cases hba : b = a
+          · subst hba
+            simp only [if_true, Option.some.injEq] at ht
+            exact ⟨List.mem_cons_self, o, hl, ht⟩
+          · simp only [hba, if_false] at ht
+            obtain ⟨hp, o', ho', hc⟩ := hi.1 a v ht
+            exact ⟨List.mem_cons_of_mem _ hp, o', ho', hc⟩
+        · intro a ha
+          rcases List.mem_cons.mp ha with rfl | ha'
+          · exact ⟨o, hl⟩
+          · exact hi.2 a ha'
+      | true =>
+        simp only [if_true]
+        cases ht : tget b h.table with
+        | some v =>
+          obtain ⟨_, o', ho', hc⟩ := hi.1 b v ht
+          rw [hl] at ho'
+          simp only [Option.some.injEq] at ho'
+          subst ho'
+          refine ⟨⟨?_, ?_⟩, by simp [hc]⟩
+          · intro a w hw
+            obtain ⟨hp, o'', ho'', hc'⟩ := hi.1 a w hw
+            exact ⟨List.mem_cons_of_mem _ hp, o'', ho'', hc'⟩
+          · intro a ha
+            rcases List.mem_cons.mp ha with rfl | ha'
+            · exact ⟨o, hl⟩
+            · exact hi.2 a ha'
+        | none =>
+          refine ⟨⟨?_, ?_⟩, by first | rfl | trivial⟩
+          · intro a v hv
+            simp only [tget_tset] at hv
+            by_cases hba : b = a
+            · subst hba
+              simp only [if_true, Option.some.injEq] at hv
+              exact ⟨List.mem_cons_self, o, hl, hv⟩
+            · simp only [hba, if_false] at hv
+              obtain ⟨hp, o', ho', hc⟩ := hi.1 a v hv
+              exact ⟨List.mem_cons_of_mem _ hp, o', ho', hc⟩
+          · intro a ha
+            rcases List.mem_cons.mp ha with rfl | ha'
+            · exact ⟨o, hl⟩
+            · exact hi.2 a ha'
+
+/-- the heap part (live objects, pins) evolves identically with warm and cold caches -/
+private theorem hstep_heap (warm : Bool) (h h' : Heap) (e1 : h.live = h'.live) (e2 : h.pinned = h'.pinned) (op : HOp) :
+    (hstep true warm h op).1.live = (hstep true false h' op).1.live ∧ (hstep true warm h op).1.pinned = (hstep true false h' op).1.pinned := by
+  have el : ∀ a, liveAt h a = liveAt h' a := fun a => by simp [liveAt, e1]
+  cases op with
+  | alloc o =>
+    simp only [hstep, el]
+    cases liveAt h' o.addr <;> simp [e1, e2]
+  | drop b =>
+    simp only [hstep, e2]
+    by_cases hb : b ∈ h'.pinned <;> simp [hb, e1, e2]
+  | use b =>
+    simp only [hstep, el, if_true, Bool.false_eq_true, if_false]
+    cases liveAt h' b with
+    | none => exact ⟨e1, e2⟩
+    | some o =>
+      simp only
+      cases warm with
+      | false => simp [e1, e2]
+      | true =>
+        simp only [if_true]
+        cases tget b h.table <;> simp [e1, e2]
+
+/-- with the pin (the code as it is: `Gen.CacheKeys.codeobjectsPinned`), for EVERY history of allocations, drops (garbage
+    collection, address re-use) and uses: each use is answered with the content of the object that is live at that address now -/
+theorem C05_id_keyed_pinned (hist : List HOp) : hrun true true Heap.init hist = hrun true false Heap.init hist := by
+  suffices hgen : ∀ (h h' : Heap), HInv h → h.live = h'.live → h.pinned = h'.pinned → HInv h' → hrun true true h hist = hrun true false h' hist from
+    hgen _ _ ⟨fun a v ht => by simp [Heap.init, tget] at ht, fun a ha => by simp [Heap.init] at ha⟩ rfl rfl
+      ⟨fun a v ht => by simp [Heap.init, tget] at ht, fun a ha => by simp [Heap.init] at ha⟩
+  induction hist with
+  | nil => intro _ _ _ _ _ _; rfl
+  | cons op rest ih =>
+    intro h h' hi e1 e2 hi'
+    obtain ⟨w1, w2⟩ := hstep_pinned true h hi op
+    obtain ⟨c1, _⟩ := hstep_pinned false h' hi' op
+    obtain ⟨g1, g2⟩ := hstep_heap true h h' e1 e2 op
+    have ans : (hstep true false h op).2 = (hstep true false h' op).2 := by
+      have el : ∀ a, liveAt h a = liveAt h' a := fun a => by simp [liveAt, e1]
+      cases op with
+      | alloc o => simp only [hstep, el]; cases liveAt h' o.addr <;> rfl
+      | drop b => simp only [hstep, e2]; by_cases hb : b ∈ h'.pinned <;> simp [hb]
+      | use b => simp only [hstep, el, Bool.false_eq_true, if_false]; cases liveAt h' b <;> rfl
+    simp only [hrun]
+    rw [w2, ans, ih _ _ w1 g1 g2 c1]
+
+/-- without the pin `id()` is not a key: an object is decompiled, dies, another one is allocated at its address and gets the
+    dead object's tree -/
+theorem C05_id_keyed_unpinned :
+    ∃ hist, hrun false true Heap.init hist ≠ hrun false false Heap.init hist :=
+  ⟨[.alloc ⟨1, 10⟩, .use 1, .drop 1, .alloc ⟨1, 20⟩, .use 1], by decide⟩
+
+/-- the code as it is keeps the pin (flag regenerated from pony/utils/utils.py) -/
+theorem C05_codeobjects_pinned : CacheKeys.codeobjectsPinned = true := by decide
+
+/-! ### pinned parameters must be recorded where the re-check looks -/
+
+/-- a translator that bakes in a parameter it does not record in the root's `fixed_param_values` (a bound pinned inside a nested
+    generator and recorded on the sub-translator) defeats the re-check: the second query gets the first one's constant -/
+theorem C05_translator_unrecorded_pin :
+    ∃ hist : List (Op TrIn (List Int)),
+      run (trMemoHidden (fun _ => []) (fun _ => [0]) id) [] hist ≠ hist.map (cold (trMemoHidden (fun _ => []) (fun _ => [0]) id)) := by
+  refine ⟨[.call ⟨[7], fun _ => some 2, true⟩, .call ⟨[7], fun _ => some 3, true⟩], ?_⟩
+  simp [run, step, call, tget, tset, tdel, store, trMemoHidden, trCompute, trAccept, cold]
+
+/-- every site that bakes a parameter value into a translator records it on the ROOT translator (regenerated from sqltranslation.py) -/
+theorem C05_pins_recorded_at_root : CacheKeys.pinsRecordedAtRoot = true := by decide
+
 /-! ### the per-session result cache -/
 
 /-- FULL statement: for every history of modifications, queries (cacheable or not), flushes, commits, rollbacks, bulk
